@@ -38,6 +38,14 @@ def judge (toks : List String) (out : List String) : String :=
     (match parseRows n.toNat! rest with
      | some (rows, _) => judgeJson true rows out
      | none => "bad unparsable-op")
+  | "proj" :: mask :: "json" :: _seed :: n :: rest =>
+    (match parseRows n.toNat! rest with
+     | some (rows, _) => judgeJson true rows out true
+     | none => "bad unparsable-op")
+  | "proj" :: mask :: "csv" :: rest =>
+    (match parseCsvOp rest with
+     | some f => judgeCsv true f out (parseMask mask)
+     | none => "bad unparsable-op")
   | "csv" :: rest =>
     (match parseCsvOp rest with
      | some f => judgeCsv true f out
